@@ -27,7 +27,7 @@ type PropConfig struct {
 	Explanation string   `json:"explanation"`
 }
 
-var defaultKinds = []string{"ensures", "requires@", "frame", "loop", "lemma", "overflow", "refines"}
+var defaultKinds = []string{"ensures", "requires@", "frame", "loop", "lemma", "overflow", "refines", "atcall"}
 
 type namedResult struct {
 	Name      string
